@@ -1657,6 +1657,9 @@ fn main() {
                 _ => Profile::Mixed,
             };
             let max_labels: usize = args[5].parse().unwrap();
+            // optional: the traces before index `skip` are not executed (used to carry on after a
+            // trace in which the pool killed the process)
+            let skip: usize = args.get(6).map(|x| x.parse().unwrap()).unwrap_or(0);
             let mut master = Rng::new(seed);
             for i in 0..n {
                 let mut g = Gen {
@@ -1664,6 +1667,9 @@ fn main() {
                     profile,
                     max_labels,
                 };
+                if i < skip {
+                    continue;
+                }
                 let t = gen_trace(&mut g);
                 print_trace(i, &t);
             }
